@@ -67,7 +67,7 @@ def handle (ts : List String) : String :=
     | .err e => s!"err:{e}"
     | .ok acts =>
       match parLoop start count threads with
-      | .ok qs => s!"ok:{".".intercalate ((List.range qs.length).map toString)}:{"".intercalate (acts.map letter)}:{joinOr "," (acts.map showAct)}"
+      | .ok qs => s!"ok:{joinOr "." ((List.range qs.length).map toString)}:{"".intercalate (acts.map letter)}:{joinOr "," (acts.map showAct)}"
       | _ => "inconsistent"
   | "loop" :: kv =>
     match parLoop (kvNat kv "base") (kvNat kv "items") (kvNat kv "threads") with
